@@ -19,7 +19,7 @@ import (
 // `c10.hist` line.  The probe only reads the queries of the line (tokens after `q=`): the table description in
 // front of them is the model's input, extracted from the executable file by the check's own ELF/pclntab reader.
 //
-//	f:<name>  FindFuncByName      v:<name>  FindVarByName      x:<name>  ExposeFunction
+//	f:<name>  FindFuncByName      v:<name>  FindVarByName      x:<name>  ExposeFunction      a:<edit>  AllFunctions, then the caller edits the returned set
 //
 // Names are percent-encoded (bytes outside 0x21..0x7e, '%' and '@').  Observation per query, space separated:
 // ok:0x<addr> | err:<class> | panic:<class>.  A second stream ($VERIF_OUT.rt) carries, per query, what the
@@ -92,6 +92,33 @@ func c10Query(q string) (obs, rt string) {
 			return c10ErrClass(err), "-"
 		}
 		return fmt.Sprintf("ok:%#x", a), c10VarTruth(name, a)
+	case 'a':
+		// AllFunctions(); afterwards the CALLER edits the set it was handed: none | clear | keep=<prefix> | del=<name> | add=<name>
+		fs, err := AllFunctions()
+		if err != nil {
+			if fs != nil {
+				return "err-with-addr", "-"
+			}
+			return c10ErrClass(err), "-"
+		}
+		n := len(fs)
+		switch {
+		case name == "clear":
+			for k := range fs {
+				delete(fs, k)
+			}
+		case strings.HasPrefix(name, "keep="):
+			for k := range fs {
+				if !strings.HasPrefix(k, name[5:]) {
+					delete(fs, k)
+				}
+			}
+		case strings.HasPrefix(name, "del="):
+			delete(fs, name[4:])
+		case strings.HasPrefix(name, "add="):
+			fs[name[4:]] = true
+		}
+		return fmt.Sprintf("set:%d", n), "-"
 	case 'x':
 		fn, err := ExposeFunction(name, (func())(nil))
 		if err != nil {
